@@ -7,6 +7,7 @@ missing-key options, nested interceptions) and intercepted outputs.  The operati
 steps.  The *environment* answers the wrapped bodies from pre-generated outcome tables and journals every body
 execution with object identities, so that transparency, exactly-once and replay fidelity are observable.
 """
+import copy
 import threading
 from collections import namedtuple
 
@@ -710,7 +711,7 @@ class Interp(object):
         if isinstance(ret, (D.Unserializable, D.CopyFails)):
             obs.append(['in', ispec.alias, 'opaque', type(ret).__name__])
         else:
-            obs.append(['in', ispec.alias, 'value', ret])
+            obs.append(['in', ispec.alias, 'value', ret if V.FLAVOUR['sharing'] else copy.deepcopy(ret)])
 
     def do_out(self, st, obs, tname):
         svc, env = self.svc, self.env
@@ -737,7 +738,7 @@ class Interp(object):
         svc.checks.append(CallCheck('out', ospec.alias, tname, call.get('bodies', 0),
                                     call.get('returned_set', False) and ret is call.get('returned'), None,
                                     call.get('args_identical'), None))
-        obs.append(['out', ospec.alias, 'value', ret])
+        obs.append(['out', ospec.alias, 'value', ret if V.FLAVOUR['sharing'] else copy.deepcopy(ret)])
 
 
 # ---------------------------------------------------------------------------------------------- thread factories
@@ -824,3 +825,124 @@ def origin_note(ex):
 
 def exc_kind(ex):
     return type(ex).__name__
+
+
+# ---------------------------------------------------------------------------------------------- record / replay
+class Outcome(object):
+    """How a call of the operation (or of play()) ended."""
+
+    def __init__(self, kind, value=None, exc=None):
+        self.kind = kind          # 'return' | 'raise' | 'interrupt'
+        self.value = value
+        self.exc = exc
+
+    def canon(self):
+        if self.kind == 'return':
+            return ('return', V.canon(self.value))
+        return (self.kind, type(self.exc).__name__)
+
+    def __repr__(self):
+        if self.kind == 'return':
+            return 'return %s' % V.short(self.value, 200)
+        return '%s %r' % (self.kind, self.exc)
+
+
+def call_outcome(fn):
+    try:
+        return Outcome('return', fn())
+    except Exception as ex:
+        return Outcome('raise', exc=ex)
+    except D.Interrupt as ex:
+        return Outcome('interrupt', exc=ex)
+
+
+class Recorded(object):
+    def __init__(self):
+        self.outcome = None
+        self.svc = None
+        self.env = None
+        self.spy = None
+        self.recorder = None
+        self.rec_id = None
+        self.saved = False
+
+
+def record_once(spec, run, cassette, rseed=0, thread_factory=None, recorder=None, sim=None, sent=False):
+    """Live run of the service with recording enabled over `cassette` (wrapped in a spy)."""
+    out = Recorded()
+    out.spy = cassette if isinstance(cassette, SpyCassette) else SpyCassette(cassette, run)
+    out.recorder = recorder or TapeRecorder(out.spy, random_seed=rseed)
+    out.recorder.enable_recording()
+    out.env = Env(spec, run, out.recorder)
+    out.svc = Service(spec, out.env, out.recorder, thread_factory=thread_factory or inline_thread_factory)
+    if sent:
+        out.svc.sent = []
+    before = len(out.spy.calls)
+    out.outcome = call_outcome(out.svc.invoke)
+    new = out.spy.calls[before:]
+    created = [c[1] for c in new if c[0] == 'create']
+    out.rec_id = created[-1] if created else None
+    out.saved = any(c == ('save', out.rec_id) for c in new)
+    return out
+
+
+class Replayed(object):
+    def __init__(self):
+        self.outcome = None       # outcome of recorder.play(): return Playback | raise
+        self.op_outcome = None    # outcome of the operation inside the playback function
+        self.svc = None
+        self.env = None
+        self.recorder = None
+        self.playback = None
+
+
+def replay_once(spec, run, cassette, rec_id, thread_factory=None, recorder=None, overrides=None, enable_recording=False,
+                sent=False, join_threads=True):
+    out = Replayed()
+    out.recorder = recorder or TapeRecorder(cassette)
+    if enable_recording:
+        out.recorder.enable_recording()
+    out.env = Env(spec, run, out.recorder)
+    out.env.tripwire = True
+    out.svc = Service(spec, out.env, out.recorder, thread_factory=thread_factory or inline_thread_factory, overrides=overrides)
+    if sent:
+        out.svc.sent = []
+    holder = {}
+
+    def playback_function(recording):
+        holder['recording'] = recording
+        try:
+            out.svc.invoke()
+        finally:
+            if join_threads:
+                for name, th, tobs, strag in out.svc.threads:
+                    th.join()
+
+    out.outcome = call_outcome(lambda: out.recorder.play(rec_id, playback_function))
+    if out.outcome.kind == 'return':
+        out.playback = out.outcome.value
+    if out.svc.last_raised is not None:
+        out.op_outcome = Outcome('raise' if isinstance(out.svc.last_raised, Exception) else 'interrupt', exc=out.svc.last_raised)
+    elif out.svc.last_result is not None:
+        out.op_outcome = Outcome('return', out.svc.last_result)
+    return out
+
+
+def recording_in_faithful_domain(rec):
+    """The live recording object's content must round-trip through the pinned serializer as one document; the
+    properties are conditional on that (serializer limits are not playback defects)."""
+    r = rec.spy.created.get(rec.rec_id)
+    if r is None:
+        return True
+    inner = getattr(r, 'wrapped_recording', r)
+    return V.doc_faithful({'d': dict(inner.recording_data), 'm': dict(inner.recording_metadata)})
+
+
+def outputs_as_map(outputs):
+    """list of Output(key, value) -> ({key: canon(value)}, duplicate keys)."""
+    m, dups = {}, []
+    for o in outputs:
+        if o.key in m:
+            dups.append(o.key)
+        m[o.key] = V.canon(o.value)
+    return m, dups
